@@ -128,6 +128,20 @@ def rule_projection_pairs(rep: Report, repo: Repo):
         rep.check(bool(oo) and oko, RULE, f"{pair}: offdiag returns zero for blocks outside the key set", str(oo), loc(o))
         rep.check(set(di) == set(oi), RULE, f"{pair}: same value-type branches in both closures",
                   f"diag {sorted(di)}, offdiag {sorted(oi)}", loc(d))
+        # a mask is applied ELEMENT-WISE: `*` is element-wise only for ndarrays (and sparse arrays); sympy matrices and
+        # scipy.sparse matrices (`spmatrix`, where `*` is the matrix product) need their own element-wise method
+        ELEMENTWISE = {"dense": "x*M", "sparse": "x.multiply(M)", "sympy": "x.multiply_elementwise(M)"}
+        for fn_name, table in (("diag", di), ("offdiag", oi)):
+            if any(u[2] is None and u[0] in ELEMENTWISE.values() for u in table.values()):
+                for kind, form in ELEMENTWISE.items():
+                    got = table.get(kind)
+                    if got is None:
+                        rep.fail(RULE, f"{pair}: {fn_name} has no {kind} branch: a {kind} value is masked with `{table.get('dense', ('?',))[0]}`",
+                                 "for scipy.sparse matrices and sympy matrices `*` is the matrix product, so S[x] + R[x] != x "
+                                 f"(required element-wise form for {kind} values: {form})", loc(d if fn_name == "diag" else o))
+                    else:
+                        rep.check(got[0] == form, RULE, f"{pair}: {fn_name} masks {kind} values element-wise ({form})", f"found {got[0]}",
+                                  loc(d if fn_name == "diag" else o))
         for kind in sorted(set(di) & set(oi)):
             a, b = di[kind], oi[kind]
             same_form = a[0] == b[0]
